@@ -102,6 +102,8 @@ func RunC11(prop string, tr *Trace, sc *Script, rec *Recorder, scratch string) (
 	seenGER := map[common.Hash]bool{}
 	rollup := NewRefSparse()
 	zeroOverNonZero := false
+	var usedRoots []common.Hash
+	seenTreeRoots := map[common.Hash]bool{}
 	mockRollup := NewRefSparse() // the mock's own leaves (it stores zero exit roots too)
 	maxRollup := uint32(0)
 	var pendingExp []c11Expect
@@ -346,6 +348,20 @@ func RunC11(prop string, tr *Trace, sc *Script, rec *Recorder, scratch string) (
 				er = cur // unchanged
 			case r.Bool(12) && !has:
 				er = common.Hash{} // zero root for a rollup that has none yet
+			case r.Bool(14) && len(usedRoots) > 0:
+				// an exit root that this or another rollup carried before (two rollups with the same local exit
+				// root, a rollup going back to an earlier one): repeated nodes low in the updatable tree
+				er = usedRoots[r.Intn(len(usedRoots))]
+				if has && er == cur {
+					er = genHash(r)
+				}
+				// the node keys the roots of this tree by hash: a history that brings the WHOLE tree back to an
+				// earlier root is refused by the store (outside the properties; DESIGN 14.4) - not generated
+				t := rollup.Clone()
+				t.Set(rid-1, er)
+				if seenTreeRoots[t.Root()] {
+					er = genHash(r)
+				}
 			case r.Bool(10) && has:
 				// zero root for a rollup that already has one: the node keeps the last non-zero root (the
 				// property's wording); what the rollup-manager mock does with it is its own business
@@ -369,6 +385,8 @@ func RunC11(prop string, tr *Trace, sc *Script, rec *Recorder, scratch string) (
 			}
 			if er != (common.Hash{}) {
 				rollup.Set(rid-1, er)
+				usedRoots = append(usedRoots, er)
+				seenTreeRoots[rollup.Root()] = true
 				mockRollup.Set(rid-1, er)
 			} else {
 				delete(mockRollup.Leaves, rid-1) // the mock stores the zero root: the leaf is empty again
